@@ -68,7 +68,12 @@ func otherRecs(t *tagger, collide string) map[string]recDesc {
 // leaves flattens the event (JSON view + tags) to the set of its string leaves.
 func leaves(ev *aucoalesce.Event) map[string]bool {
 	out := map[string]bool{}
-	b, err := json.Marshal(ev)
+	// only the places the statement lists: Data, Paths, Process, User ids / SELinux labels,
+	// Result, Session, Tags, Source / Destination (+ File, which mirrors a PATH).  Summary and
+	// ECS hold derived COPIES and must not hide a value that was dropped from its home.
+	view := map[string]interface{}{"data": ev.Data, "paths": ev.Paths, "process": ev.Process, "user_ids": ev.User.IDs, "user_selinux": ev.User.SELinux,
+		"result": ev.Result, "session": ev.Session, "tags": ev.Tags, "source": ev.Source, "destination": ev.Dest, "file": ev.File}
+	b, err := json.Marshal(view)
 	if err != nil {
 		return out
 	}
